@@ -25,10 +25,10 @@ from common import enc_bool, enc_str, parse_ms, run_driver
 TRANSLATORS = ["T4"]
 LEVEL = "proof"
 ASSUMPTIONS = [
-    "keys and patterns are sequences of Unicode scalar values; the theorems about the regex family assume a key without line feed (CPython: '.' does not match '\\n', '$' also matches before a final '\\n')",
+    "keys and patterns are sequences of Unicode scalar values; completeness of the regex family (and the binding theorems) assume a key without line feed (CPython: '.' does not match '\\n'; open finding F21-NLb); soundness (never True outside the denotation) is proved for every key",
     "documented form (decidable, Spec/Builtin.lean tok2/tok3/tok5/segs2/segsB): literals are not regex metacharacters, '*' directly follows '/', (keyMatch2: or is the whole pattern), ':name' runs to the next '/', '{name}' closes in its segment; for keyMatch4/5 a name contains no brace; for the binding functions variables and '*' are whole segments and '*' is last",
     "CPython's re is modelled on the fragment the rewrites emit (literal, '.', '[^/]', '[^\\/]' with none/*/+/+? and one-atom capture groups); ipaddress on dotted quads with an optional /prefixlen; both validated by the same differential run, not verified",
-    "glob_match is modelled as repaired by fix_F09 (faithful star case)",
+    "glob_match is modelled as repaired by fix_F09 (faithful star case); the key matchers as repaired by fix_F21NL (\\Z anchor)",
 ]
 TRUSTED_EXTRA = ["translator T4 (tools/translate/t4_functions.py)", "CPython re / ipaddress on the modelled fragment"]
 
@@ -616,16 +616,18 @@ def work(task):
                         )
             elif op in ("keymatch2", "keymatch3", "keymatch5") and "\n" in args[0]:
                 # outside the theorems' hypothesis (single-line keys) but inside the property text ("every key"):
-                # judged by the Python denotation, reported under one signature (known finding F21-NL)
+                # judged by the Python denotation, known findings F21-NLa / F21-NLb
                 r = oracle_k(op, args[0], args[1], allow_nl=True)
                 if r is not None and got != enc_bool(r):
                     out["nviol"] += 1
-                    sig = "regex-family:line-feed-in-key"
+                    # fail-open (a key outside the pattern accepted: the '$' anchor, F21-NLa, fixed by \\Z) and
+                    # fail-closed ('*' is '.*' and '.' does not match a line feed, F21-NLb, open) are told apart
+                    sig = "regex-family:line-feed-accepted" if got == "T" else "regex-family:star-stops-at-line-feed"
                     if sum(1 for v in out["viol"] if v["signature"] == sig) < 2:
                         out["viol"].append(
                             {
                                 "signature": sig,
-                                "what": f"{op}{tuple(args)!r} returned {show(got)}, the documented pattern language gives {r} (CPython: '$' also matches before a final line feed, '.' does not match a line feed)",
+                                "what": f"{op}{tuple(args)!r} returned {show(got)}, the documented pattern language gives {r} (line feed in the key)",
                                 "op": op,
                                 "args": list(args),
                                 "expected": enc_bool(r),
@@ -745,7 +747,7 @@ def tasks_for(level, rng):
     T.append({"kind": "patterns", "patterns": pats3, "ops": ["rewrite3", "rewriteg3", "rewrite4", "rewrite5", "names3", "names4"], "stream": "rewrite"})
     rtoks = ["a", "/", ".", ".*", "[^/]+", "[^\\/]+", "([^/]+)", "([^/]+?)", "(.*)", "*", "+", "{", "}", "x", "+?"]
     rkeys = strings_upto(list("a/x\n"), 4)
-    res = ["^" + "".join(t) + "$" for nn in range(0, 4) for t in itertools.product(rtoks, repeat=nn)]
+    res = ["^" + "".join(t) + "\\Z" for nn in range(0, 4) for t in itertools.product(rtoks, repeat=nn)]
     for sl in slices(res, 16):
         T.append({"kind": "list", "cases": [("remodel", (r, k)) for r in sl for k in rkeys[:: (3 if level == 0 else 1)]], "stream": "remodel"})
     # ip
